@@ -41,6 +41,10 @@ def items(b, tag):
                                                            b.state_var(b.ty('Uint', 256), '_' + y, [b.vattr('visibility', 'public')])], name='Const' + tag),
         'library': lambda: fam.contract_with(b, [make_function(b, 'Function', 'internal', False, True, False, name='lib' + tag)], kind='Library', name='Lib' + tag),
         'interface': lambda: fam.contract_with(b, [make_function(b, 'Function', 'external', False, False, False, name='api' + tag)], kind='Interface', name='Api' + tag),
+        # a library with public / external functions that have a body (whatever a detector thinks of libraries, it thinks it of THIS item alone)
+        'library_public_functions': lambda: fam.contract_with(b, [make_function(b, 'Function', 'public', False, True, False, name='pub' + tag),
+                                                                 make_function(b, 'Function', 'external', False, True, False, name='ext' + tag),
+                                                                 make_function(b, 'Function', 'external', True, True, False, name='pay' + tag)], kind='Library', name='Tools' + tag),
         # declarations WITHOUT a body (interface, abstract contract) carry everything a detector collects per function -- parameters with a
         # data location, names, visibility -- but nothing that would close the bookkeeping for them: whatever is collected for them must
         # not surface in (or hide something of) the item that follows
@@ -205,6 +209,8 @@ def body(chk):
         core = [t for t in core if ('kill' in t[0] and 'kill' in t[1]) or ('user_typed' in t[0] + t[1] and 'enum' in t[0] + t[1])] + core
         bodyless = [t for t in todo if t[2] == 'first' and 'bodyless' in t[0] and t[1] in ('contract_rich', 'free_function', 'library', 'contract_memory_params', 'empty_contract')] \
             + [t for t in todo if t[2] == 'first' and 'bodyless' in t[1] and t[0] in ('contract_memory_params', 'free_function')]
+        libs = [t for t in todo if t[2] == 'first' and 'library_public_functions' in (t[0], t[1]) and (set((t[0], t[1])) & {'contract_rich', 'interface', 'empty_contract', 'free_function', 'library', 'contract_ctor_first'})]
+        bodyless = bodyless + libs
         core = bodyless + core
         todo = (core[:40 + len(bodyless)] + todo[:40] + unicode_first[:6])
     chk.bounds = {'files': '%d pairs of top-level items x %d detectors' % (len(todo), len(DETECTORS)),
